@@ -446,7 +446,7 @@ static int replay(const char *path, uint64_t seed, int n)
     }
     out["valid"]     = valid;
     out["unchanged"] = unchanged;
-    std::cout << out.dump() << "\n";
+    std::cout << out.dump() << std::endl;
   }
   current_case().clear();
   std::cout << "{\"done\":" << cases.size() << "}" << std::endl;
